@@ -358,6 +358,14 @@ def run(chk: Check, eng: Engine) -> None:
     trailing_separator_rule(chk, eng, "R08-g")
     chk.rule("R08-f", "an infix rule of the constraint language whose operands can absorb its own operators is handled chain-aware", floor=1)
     operand_absorption(chk, eng, "R08-f")
+    chk.rule("R08-h", "code compiled from text (exec / eval / compile of a non-constant) does not inherit compiler flags from the calling module: "
+             "no `from __future__ import annotations` (or barry_as_FLUFL) in a module with such a call unless it compiles with dont_inherit=True", floor=10)
+    inherited_flags_rule(chk, eng, "R08-h")
+    chk.rule("R08-i", "between string delimiters (lexer tokens that switch the lexer's f-string state) literal text is read from the input stream, never re-assembled "
+             "from token texts: the token stream has no blanks", floor=2)
+    string_text_rule(chk, eng, "R08-i", pg, lg)
+    chk.rule("R08-j", "an optional keyword / operator token of a rule of embedded Python is consulted by the rule's handler (`async`, the `=` of f\"{x=}\")", floor=3)
+    optional_token_rule(chk, eng, "R08-j", pg, lg)
     chk.rule("R08-e", "a constant-index context accessor ctx.X(k) is used only where slot k of X is fixed by the rule (no earlier optional occurrence)", floor=10)
     # the selector sub-language (<a>.<b>[..]{..}) belongs to C07; stop the closure where embedded Python starts again
     selector_rules: set[str] = set()
@@ -382,6 +390,191 @@ PARAM_ROLES = {
     "lambda_param_with_default": {"args", "defaults"},
     "lambda_param_maybe_default": {"kwonlyargs", "kw_defaults"},
 }
+
+
+def _template_has_no_annotation(js: ast.JoinedStr) -> bool:
+    """An f-string whose holes stand for names: parse it with the holes filled by an identifier and look for annotations."""
+    text = "".join(v.value if isinstance(v, ast.Constant) and isinstance(v.value, str) else "_hole_" for v in js.values)
+    try:
+        tree = ast.parse(text)
+    except SyntaxError:
+        return False
+    for n in ast.walk(tree):
+        if isinstance(n, ast.AnnAssign) or (isinstance(n, ast.arg) and n.annotation is not None) or (isinstance(n, (ast.FunctionDef, ast.AsyncFunctionDef)) and n.returns is not None):
+            return False
+        if isinstance(n, ast.Compare) and any(isinstance(o, ast.NotEq) for o in n.ops):
+            return False
+    return True
+
+
+def _token_name(e: g4.Elem, lg: g4.Grammar) -> Optional[str]:
+    """The lexer token an element of a parser rule denotes (literals are looked up in the lexer)."""
+    if e.kind == "token":
+        return e.value
+    if e.kind == "lit":
+        text = e.value[1:-1].replace("\\'", "'")
+        for name in lg.order:
+            if lg.token_literal(name) == text:
+                return name
+    return None
+
+
+def _own_helpers(cls: ClassInfo, m: FuncInfo, depth: int = 3) -> list[FuncInfo]:
+    """m and the non-visit helper methods of the class line it calls through `self` (bounded)."""
+    out, todo, seen = [], [(m, 0)], set()
+    while todo:
+        f, d = todo.pop()
+        if f.fq in seen:
+            continue
+        seen.add(f.fq)
+        out.append(f)
+        if d >= depth:
+            continue
+        for c in ast.walk(f.node):
+            if isinstance(c, ast.Call) and isinstance(c.func, ast.Attribute) and isinstance(c.func.value, ast.Name) and c.func.value.id == "self" \
+                    and not c.func.attr.startswith("visit"):
+                h = cls.lookup(c.func.attr)
+                if h is not None and h.fq.startswith(CONVERT):
+                    todo.append((h, d + 1))
+    return out
+
+
+def string_text_rule(chk: Check, eng: Engine, rule: str, pg: g4.Grammar, lg: g4.Grammar) -> None:
+    """R08-i.  The lexer sends blanks (and `#...`) to the hidden channel everywhere, also between the delimiters of an f-string, where
+    they are content.  The delimiters are found from the lexer grammar itself: tokens whose action calls `fstring_start()`.  In the handlers of
+    the parser rules between those delimiters (closure over rule references, stopping where an expression starts), a string constant of the
+    translated program must not be built from `<node>.getText()` - the text of tokens - but from the input stream (`getText(a, b)`)."""
+    openers = {n for n in lg.order if any("fstring_start" in a for a in lg.rules[n].actions)}
+    if not openers:
+        raise AnalysisError("no lexer token switches the f-string state (anchor of R08-i vanished)")
+    string_rules = [r for r in pg.order if any(alt and alt[0].kind == "token" and alt[0].value in openers for alt in pg.rules[r].alts)]
+    if not string_rules:
+        raise AnalysisError("no parser rule starts with an f-string delimiter")
+    # expressions inside replacement fields are ordinary token sequences again
+    stop = {"yield_expr", "star_expressions", "expression", "identifier"}
+    inside: set[str] = set()
+    todo = list(string_rules)
+    while todo:
+        r = todo.pop()
+        if r in inside or r in stop or r not in pg.rules:
+            continue
+        inside.add(r)
+        todo.extend(pg.refs(r))
+    sp = eng.cls(CONVERT, "SearchProcessor")
+    n = 0
+    for r in sorted(inside):
+        m = sp.methods.get(rule_to_method(r))
+        if m is None:
+            continue
+        stream_text = False
+        for f in _own_helpers(sp, m):
+            for c in ast.walk(f.node):
+                if isinstance(c, ast.Call) and isinstance(c.func, ast.Attribute) and c.func.attr == "getText" and len(c.args) == 2:
+                    stream_text = True
+                if not (isinstance(c, ast.Call) and call_name(c) in ("Constant", "ast.Constant")):
+                    continue
+                vals = [k.value for k in c.keywords if k.arg == "value"] + list(c.args[:1])
+                for v in vals:
+                    for g in ast.walk(v):
+                        if isinstance(g, ast.Call) and isinstance(g.func, ast.Attribute) and g.func.attr == "getText" and not g.args:
+                            chk.bad(rule, eng.relfile(f), c.lineno, f.fq, f"`{short(c, 70)}` in the translation of `{r}` builds string content from token text",
+                                    "blanks between the tokens of an f-string are on the lexer's hidden channel: `f\"a b {x}\"` is executed as `f\"ab{x}\"` (also `{{`, escapes of raw strings)",
+                                    keyparts=f"tokentext|{r}")
+        n += 1
+        if r in string_rules and not stream_text:
+            chk.bad(rule, eng.relfile(m), m.line, m.fq, f"the handler of `{r}` never reads the input stream (`getText(start, stop)`)",
+                    "the literal parts of an f-string can only be recovered from the characters between its replacement fields", keyparts=f"nostream|{r}")
+        else:
+            chk.ok(rule, m.fq, m.line, f"`{r}`: string constants come from the input stream / Python's own decoding, not from token texts")
+    if n < 2:
+        raise AnalysisError(f"only {n} handlers found between f-string delimiters")
+
+
+def optional_token_rule(chk: Check, eng: Engine, rule: str, pg: g4.Grammar, lg: g4.Grammar) -> None:
+    """R08-j.  `T?` in a grammar rule of embedded Python is meaning (`async`, the `=` of a self-documenting f-string field) unless T is a
+    separator.  A handler written for that rule must ask for it (`ctx.T()`), in itself or in a helper it hands ctx to."""
+    sp = eng.cls(CONVERT, "SearchProcessor")
+    pp = eng.cls(CONVERT, "PythonProcessor")
+    separators = {",", ";"}
+    n = 0
+    python_rules = pg.reachable(["python_file"]) if "python_file" in pg.rules else set(pg.rules)
+    selector_part = pg.reachable(["selector_length", "star_selection", "dot_selection"]) - pg.reachable(["expression"])
+    for r in pg.order:
+        if r not in python_rules or r in selector_part:
+            continue
+        m = sp.methods.get(rule_to_method(r)) or pp.methods.get(rule_to_method(r))
+        if m is None:
+            continue
+        for alt in pg.rules[r].alts:
+            for e in alt:
+                if e.quant != "?" or e.kind not in ("token", "lit"):
+                    continue
+                text = lit_text(e, lg) or ""
+                tok = _token_name(e, lg)
+                if text in separators or (tok or "") in PUNCT_TOKENS or tok is None or lg.token_literal(tok) is None:
+                    continue  # separators; tokens that are not a fixed keyword / operator (NUMBER, ...) are operands, handled by R08-e
+                n += 1
+                asked = False
+                for f in _own_helpers(pp if m.fq.startswith(pp.fq) else sp, m):
+                    for c in ast.walk(f.node):
+                        if isinstance(c, ast.Call) and isinstance(c.func, ast.Attribute) and c.func.attr == tok:
+                            asked = True
+                if asked:
+                    chk.ok(rule, m.fq, m.line, f"`{r}`: optional `{text or tok}` is consulted (`.{tok}()`)")
+                else:
+                    chk.bad(rule, eng.relfile(m), m.line, m.fq, f"rule `{r}` has the optional token `{text or tok}` and its handler never asks for `{tok}()`",
+                            "the token is dropped from the translated code: the program is executed as if it had not been written", keyparts=f"opttoken|{r}|{tok}")
+    if n < 3:
+        raise AnalysisError(f"only {n} optional keyword / operator tokens found in handled rules of embedded Python")
+
+
+def inherited_flags_rule(chk: Check, eng: Engine, rule: str) -> None:
+    """R08-h.  `exec`, `eval` and `compile` of a *string* compile it with the `__future__` flags of the module the call is written in
+    (unless `compile(..., dont_inherit=True)`).  Fandango executes the spec's Python as text (`ast.unparse` + exec / eval), so a
+    `from __future__ import annotations` at the top of such a module silently changes the meaning of the spec's code: annotations are no
+    longer evaluated.  Only features that still change compilation on the supported interpreters count (`annotations`, `barry_as_FLUFL`);
+    `eval` compiles an expression, which cannot contain an annotation, so only the operator-changing flag matters there."""
+    live = {"annotations", "barry_as_FLUFL"}
+    n = 0
+    for mod in eng.ix.modules.values():
+        if mod.tree is None:
+            continue
+        flags: dict[str, int] = {}
+        for st in mod.tree.body:
+            if isinstance(st, ast.ImportFrom) and st.module == "__future__":
+                for a in st.names:
+                    if a.name in live:
+                        flags[a.name] = st.lineno
+        # names re-bound in the module do not denote the builtins
+        shadow = {nm for nm in ("exec", "eval", "compile") if nm in mod.functions or nm in mod.globals_assigned or nm in mod.imports}
+        for node in ast.walk(mod.tree):
+            if not (isinstance(node, ast.Call) and isinstance(node.func, ast.Name) and node.func.id in ("exec", "eval", "compile")):
+                continue
+            nm = node.func.id
+            if nm in shadow or not node.args:
+                continue
+            src = node.args[0]
+            if isinstance(src, ast.Constant):
+                continue  # fixed text written by the maintainers, compiled the way they see it
+            if isinstance(src, ast.JoinedStr) and _template_has_no_annotation(src):
+                chk.ok(rule, mod.name, node.lineno, f"`{short(node, 60)}`: a fixed template in which names are filled in; it has no annotation", nontrivial=False)
+                n += 1
+                continue
+            if nm == "compile" and any(k.arg == "dont_inherit" and isinstance(k.value, ast.Constant) and k.value.value is True for k in node.keywords):
+                chk.ok(rule, mod.name, node.lineno, f"`{short(node, 60)}` does not inherit flags")
+                n += 1
+                continue
+            relevant = flags if nm != "eval" else {k: v for k, v in flags.items() if k == "barry_as_FLUFL"}
+            n += 1
+            if relevant:
+                feat = sorted(relevant)[0]
+                chk.bad(rule, mod.relpath, node.lineno, mod.name, f"`{short(node, 70)}` compiles text under `from __future__ import {feat}` (line {relevant[feat]}) of its own module",
+                        "the executed program is compiled with a flag its author never wrote: annotations of spec code stay unevaluated strings "
+                        "(`__annotations__`, typing-driven helpers and dataclasses behave differently from the text)", keyparts=f"future|{nm}|{feat}")
+            else:
+                chk.ok(rule, mod.name, node.lineno, f"`{short(node, 60)}`: module imports no flag-setting __future__ feature")
+    if n < 10:
+        raise AnalysisError(f"only {n} exec/eval/compile sites found")
 
 
 def ordinal_accessor_rule(chk: Check, eng: Engine, rule: str, class_names: list[str], only_rules=None, exclude_rules=None, min_sites: int = 10) -> None:
@@ -764,6 +957,13 @@ from ..mutants import M  # noqa: E402
 _CV = "src/fandango/language/parse/convert.py"
 _G4 = "language/FandangoParser.g4"
 MUTANTS = [
+    M("fstring-text-from-token-texts", _CV, "            text = stream.getText(begin, end)\n", "            text = \"\".join(t.getText() for t in tokens_between(begin, end))\n            trees.append(ast.Constant(value=text.getText()))\n", "R08-i"),
+    M("fstring-never-reads-the-stream", _CV, "            text = stream.getText(begin, end)\n", "            text = suffix\n", "R08-i",
+      more=(("                    ast.Constant(value=stream.getText(field.start.start + 1, end - 1))\n", "                    ast.Constant(value=str(end))\n"),)),
+    M("self-documenting-field-ignored", _CV, "            if field.ASSIGN():\n", "            if False:\n", "R08-j", more=(("        elif ctx.ASSIGN() and not ctx.fstring_full_format_spec():\n", "        elif False:\n"),)),
+    M("async-comprehension-becomes-sync", _CV, "        is_async = True if ctx.ASYNC() else False  # needed for None check\n", "        is_async = False\n", "R08-j"),
+    M("spec-code-compiled-under-future-annotations", "src/fandango/language/parse/spec.py", "import ast\nimport hashlib\n", "from __future__ import annotations\n\nimport ast\nimport hashlib\n", "R08-h"),
+    M("shell-input-compiled-under-future-annotations", "src/fandango/cli/utils.py", "import argparse\nimport difflib\n", "from __future__ import annotations\nimport argparse\nimport difflib\n", "R08-h"),
     M("lambda-handler-removed", "src/fandango/language/parse/convert.py", "    def visitLambdef(self, ctx: FandangoParser.LambdefContext):\n", "    def _unused_visitLambdef(self, ctx: FandangoParser.LambdefContext):\n", "R08-a"),
     M("one-element-tuple-collapsed", "src/fandango/language/parse/convert.py", "        if len(expressions) == 1 and not ctx.COMMA():\n", "        if len(expressions) == 1:\n", "R08-g"),
     M("one-element-subscript-tuple-collapsed", "src/fandango/language/parse/convert.py", "        if len(slice_trees) == 1 and not slices.COMMA():\n", "        if len(slice_trees) == 1:\n", "R08-g"),
@@ -784,6 +984,10 @@ MUTANTS = [
       "            arg, d, s, m = self.visitParam_with_default(param)\n            args.append(arg)\n            if d is not None and ctx.star_etc():\n                defaults.append(d)\n", "R08-c"),
 ]
 TWINS = [
+    M("twin-fstring-stream-in-a-local", _CV, "            text = stream.getText(begin, end)\n", "            source = stream\n            text = source.getText(begin, end)\n", None),
+    M("twin-async-flag-as-bool", _CV, "        is_async = True if ctx.ASYNC() else False  # needed for None check\n", "        is_async = bool(ctx.ASYNC())\n", None),
+    M("twin-future-annotations-where-only-expressions-are-evaluated", "src/fandango/constraints/constraint.py", "from abc import ABC, abstractmethod\n", "from __future__ import annotations\nfrom abc import ABC, abstractmethod\n", None),
+    M("twin-future-annotations-beside-a-fixed-template", "src/fandango/language/parse/io.py", "from typing import Any, Optional\nfrom fandango.errors import FandangoError, FandangoValueError\n", "from __future__ import annotations\nfrom typing import Any, Optional\nfrom fandango.errors import FandangoError, FandangoValueError\n", None),
     M("twin-sum-elif-to-if", _CV, "        if ctx.ADD():\n            return self._visit_bin_op(ctx, ast.Add())\n        elif ctx.MINUS():\n            return self._visit_bin_op(ctx, ast.Sub())\n        return self.visitTerm(ctx.term())",
       "        if ctx.ADD():\n            return self._visit_bin_op(ctx, ast.Add())\n        if ctx.MINUS():\n            return self._visit_bin_op(ctx, ast.Sub())\n        return self.visitTerm(ctx.term())", None),
     M("twin-param-loop-rename", _CV, "            arg, d, s, m = self.visitParam_with_default(param)\n            args.append(arg)\n            defaults.append(d)\n", "            arg, dflt, s, m = self.visitParam_with_default(param)\n            args.append(arg)\n            defaults.append(dflt)\n", None),
